@@ -17,6 +17,23 @@ import (
 // and entry i of the remainder table must be (i+1)*G, all computed by the
 // independent reference model.
 
+type c18tbl struct {
+	name           string
+	first          [][][]*[4]uint64
+	second         [][]*[4]uint64
+	w, sub, it, rm int
+}
+
+// c18tables reads the package-level table variables NOW.
+func c18tables() []c18tbl {
+	return []c18tbl{
+		{"4-2-32", sm2Precomputed_4_2_32, nil, 4, 2, 32, 0},
+		{"6-3-14", sm2Precomputed_6_3_14, sm2Precomputed_6_3_14_Remainder, 6, 3, 14, 4},
+		{"5-3-17", sm2Precomputed_5_3_17, sm2Precomputed_5_3_17_Remainder, 5, 3, 17, 1},
+		{"7-3-12", sm2Precomputed_7_3_12, sm2Precomputed_7_3_12_Remainder, 7, 3, 12, 4},
+	}
+}
+
 func TestVerifC18SM2(t *testing.T) {
 	r := hk.NewReporter("C18", "sm2-tables")
 	defer r.Close()
@@ -24,22 +41,13 @@ func TestVerifC18SM2(t *testing.T) {
 		r.Inconclusive("oracle self-test: " + err.Error())
 		return
 	}
-	type tbl struct {
-		name           string
-		first          [][][]*[4]uint64
-		second         [][]*[4]uint64
-		w, sub, it, rm int
-	}
-	tbls := []tbl{
-		{"4-2-32", sm2Precomputed_4_2_32, nil, 4, 2, 32, 0},
-		{"6-3-14", sm2Precomputed_6_3_14, sm2Precomputed_6_3_14_Remainder, 6, 3, 14, 4},
-		{"5-3-17", sm2Precomputed_5_3_17, sm2Precomputed_5_3_17_Remainder, 5, 3, 17, 1},
-		{"7-3-12", sm2Precomputed_7_3_12, sm2Precomputed_7_3_12_Remainder, 7, 3, 12, 4},
-	}
+	tbls := c18tables()
+	// an entry is re-resolved from the LIVE table variables on every walk: the slices hold pointers, and
+	// an entry that has been swapped for another object must be judged by what the library reads now
 	type entry struct {
 		t     int
 		where string
-		x, y  *[4]uint64
+		get   func() (x, y *[4]uint64)
 		k     *big.Int
 	}
 	var es []entry
@@ -61,7 +69,8 @@ func TestVerifC18SM2(t *testing.T) {
 						k.SetBit(k, tb.rm+j*tb.it+b*tb.sub*tb.it, 1)
 					}
 				}
-				es = append(es, entry{ti, fmt.Sprintf("%s[sub=%d][%d]", tb.name, j, i), tb.first[j][0][i], tb.first[j][1][i], k})
+				ti, j, i := ti, j, i
+				es = append(es, entry{ti, fmt.Sprintf("%s[sub=%d][%d]", tb.name, j, i), func() (*[4]uint64, *[4]uint64) { f := c18tables()[ti].first; return f[j][0][i], f[j][1][i] }, k})
 			}
 		}
 		if tb.rm >= 1 {
@@ -71,7 +80,8 @@ func TestVerifC18SM2(t *testing.T) {
 				continue
 			}
 			for i := 0; i < cnt; i++ {
-				es = append(es, entry{ti, fmt.Sprintf("%s-remainder[%d]", tb.name, i), tb.second[0][i], tb.second[1][i], big.NewInt(int64(i + 1))})
+				ti, i := ti, i
+				es = append(es, entry{ti, fmt.Sprintf("%s-remainder[%d]", tb.name, i), func() (*[4]uint64, *[4]uint64) { f := c18tables()[ti].second; return f[0][i], f[1][i] }, big.NewInt(int64(i + 1))})
 			}
 		}
 	}
@@ -80,15 +90,16 @@ func TestVerifC18SM2(t *testing.T) {
 		hk.Parallel(len(es), func(i int) {
 			e := es[i]
 			want := ref.BaseMulFast(e.k)
-			gx, gy := montBig(e.x), montBig(e.y)
-			canonical := limbsBelowP(e.x) && limbsBelowP(e.y)
+			ex, ey := e.get()
+			gx, gy := montBig(ex), montBig(ey)
+			canonical := limbsBelowP(ex) && limbsBelowP(ey)
 			if want.Inf || gx.Cmp(want.X) != 0 || gy.Cmp(want.Y) != 0 || !canonical {
 				r.Violation("table-entry-wrong:"+tbls[e.t].name+":"+phase, hk.D{"entry": e.where, "phase": phase, "scalar": e.k.Text(16), "got_x": gx.Text(16), "got_y": gy.Text(16), "want": ptHex(want), "canonical_limbs": canonical})
 			}
 			r.Eval("table:" + tbls[e.t].name + fmt.Sprintf(":%d:%s", i%64, phase))
 		})
 	}
-	r.Sample(hk.D{"entry": es[100].where, "scalar": es[100].k.Text(16), "x_limbs": fmt.Sprint(*es[100].x)})
+	r.Sample(hk.D{"entry": es[100].where, "scalar": es[100].k.Text(16), "x_limbs": fmt.Sprint(func() [4]uint64 { x, _ := es[100].get(); return *x }())})
 	walk("at-start")
 	// the tables are LIVE package state: use every routine that reads them with hostile but legal
 	// arguments (double-scalar multiplication with tiny / zero / one-hot scalars, all comb schemes,
